@@ -1365,3 +1365,54 @@ fn tendency_i16_wasm32_simd128(
     let x = v128_bitselect(neg_x, x, need_neg);
     v128_and(no_skip, x)
 }
+
+/// Verification only (`--cfg jxl_oxide_verif`): direct access to every inverse-squeeze kernel,
+/// independent of runtime CPU dispatch.  `path` is "base", or on x86-64 "sse41" / "avx2".
+#[cfg(jxl_oxide_verif)]
+pub mod verif {
+    use jxl_grid::MutableSubgrid;
+
+    pub fn paths() -> Vec<&'static str> {
+        let mut v = vec!["base"];
+        #[cfg(target_arch = "x86_64")]
+        {
+            if is_x86_feature_detected!("sse4.1") {
+                v.push("sse41");
+            }
+            if is_x86_feature_detected!("avx2") {
+                v.push("avx2");
+            }
+        }
+        v
+    }
+
+    pub fn inverse_h_i16(path: &str, merged: &mut MutableSubgrid<'_, i16>) {
+        match path {
+            "base" => super::inverse_h_i16_base(merged),
+            #[cfg(target_arch = "x86_64")]
+            "sse41" => unsafe { super::inverse_h_i16_x86_64_sse41(merged) },
+            #[cfg(target_arch = "x86_64")]
+            "avx2" => unsafe { super::inverse_h_i16_x86_64_avx2(merged) },
+            _ => panic!("unknown path {path}"),
+        }
+    }
+
+    pub fn inverse_v_i16(path: &str, merged: &mut MutableSubgrid<'_, i16>) {
+        match path {
+            "base" => super::inverse_v_i16_base(merged),
+            #[cfg(target_arch = "x86_64")]
+            "sse41" => unsafe { super::inverse_v_i16_x86_64_sse41(merged) },
+            #[cfg(target_arch = "x86_64")]
+            "avx2" => unsafe { super::inverse_v_i16_x86_64_avx2(merged) },
+            _ => panic!("unknown path {path}"),
+        }
+    }
+
+    pub fn inverse_h_i32(merged: &mut MutableSubgrid<'_, i32>) {
+        super::inverse_h_i32_base(merged)
+    }
+
+    pub fn inverse_v_i32(merged: &mut MutableSubgrid<'_, i32>) {
+        super::inverse_v_i32_base(merged)
+    }
+}
